@@ -19,6 +19,8 @@ RULE = (
     "qubits, identity included, each with 6 (coefficient, time) variants (random floats, negative, integer, "
     "symbolic time, expression / sympy-number time, boundary times 0, pi/(2c), 1e3, 1e-9); term_rand = random "
     "strings on up to 5 (quick) / 7 (thorough) qubits with gaps, permuted qubit order, three constructors; "
+    "term_heavy = strings of weight 5, 6, 7, 8 (9, 10 thorough) in turn, mixed / all-Z / all-X / all-Y / one X or Y among "
+    "Z, qubits shuffled and optionally spread, numeric time, half of the lighter ones again inside a two-term sum; "
     "term_imag = coefficients with imaginary part +-{1e-12, 1e-3, 0.5} and purely imaginary ones; sum = 1-4 "
     "terms (duplicates, constants, non-commuting pairs), 1-4 steps, numeric and symbolic time; deriv = 1-3 "
     "terms, 1-3 steps, numeric and symbolic time, non-zero real coefficients. non-trivial: term with >=2 "
@@ -56,7 +58,7 @@ MAX_JUDGED = 7  # qubits actually touched (the oracle's register holds only thos
 
 
 def classes(tier):
-    return ["term_exh", "term_rand", "term_imag", "sum", "deriv", "history"]
+    return ["term_exh", "term_rand", "term_imag", "sum", "deriv", "history", "term_heavy"]
 
 
 # ----------------------------------------------------------------------------- oracle helpers
@@ -594,6 +596,38 @@ def run_case(ctx):
         mon.note(f"term-constructor:{how}")
         mon.note(f"term-weight:{len(ops)}")
         time_evolution_for_term(term, t)
+        return
+
+    if cls == "term_heavy":
+        # Pauli strings of weight 5 - 8 (9, 10 thorough): every weight in turn (powers of two and the numbers between
+        # them), mixed X / Y / Z, all-Z, all-X, on neighbouring or spread qubits in any order
+        weights = [5, 6, 7, 8] if ctx.quick else [5, 6, 7, 8, 9, 10]
+        k = weights[ctx.index % len(weights)]
+        style = rng.choice(["mixed", "mixed", "all-Z", "all-X", "all-Y", "one-X"])
+        qs = list(range(k))
+        rng.shuffle(qs)
+        if style == "mixed":
+            ops = {q: rng.choice("XYZ") for q in qs}
+        elif style == "one-X":
+            ops = {q: "Z" for q in qs}
+            ops[rng.choice(qs)] = rng.choice("XY")
+        else:
+            ops = {q: style[-1] for q in qs}
+        if rng.random() < 0.4:
+            [ops] = spread(rng, [ops])
+            mon.note("term-spread")
+        c = rand_real_coeff(rng)
+        t = rand_time(rng, symbolic=0.0)
+        term, how = make_term(rng, ops, c)
+        ctx.describe(f"term_heavy {how} {_fmt_ops(ops)} c={c!r} t={t!r}", True)
+        mon.note(f"term-weight:{len(ops)}")
+        time_evolution_for_term(term, t)
+        if k <= 6 and rng.random() < 0.5:
+            # the same heavy term inside a sum next to a light one, two steps
+            other, _ = make_term(rng, {rng.choice(sorted(ops)): rng.choice("XYZ")}, rand_real_coeff(rng))
+            from orquestra.quantum.operators import PauliSum
+
+            time_evolution(PauliSum([term, other]), t, n_steps=rng.choice([1, 2]))
         return
 
     if cls == "term_imag":
